@@ -81,6 +81,95 @@ pub struct ExRgb666(Rgb666);
 #[verifier::external_body]
 pub struct ExNoResetPin(crate::builder::NoResetPin);
 
+// ---------------------------------------------------------------- embedded-graphics-core geometry
+#[verifier::external_type_specification]
+pub struct ExPoint(Point);
+#[verifier::external_type_specification]
+pub struct ExSize(Size);
+#[verifier::external_type_specification]
+pub struct ExRectangle(Rectangle);
+#[verifier::external_type_specification]
+#[verifier::reject_recursive_types(C)]
+pub struct ExPixel<C: PixelColor>(embedded_graphics_core::Pixel<C>);
+
+/// e-g's own validity of a rectangle: `top_left + size` must not overflow i32 (otherwise e-g itself
+/// debug-asserts / overflows inside `bottom_right()` before the driver runs).
+pub open spec fn rect_valid(r: Rectangle) -> bool {
+    r.size.width <= 0x7fff_ffff && r.size.height <= 0x7fff_ffff
+    && r.top_left.x + r.size.width <= 0x7fff_ffff && r.top_left.y + r.size.height <= 0x7fff_ffff
+}
+pub open spec fn rect_nonempty(r: Rectangle) -> bool { r.size.width > 0 && r.size.height > 0 }
+pub open spec fn rect_right(r: Rectangle) -> int { r.top_left.x + r.size.width - 1 }
+pub open spec fn rect_bottom(r: Rectangle) -> int { r.top_left.y + r.size.height - 1 }
+pub open spec fn rect_contains(r: Rectangle, x: int, y: int) -> bool {
+    r.top_left.x <= x <= rect_right(r) && r.top_left.y <= y <= rect_bottom(r)
+}
+pub open spec fn imax(a: int, b: int) -> int { if a >= b { a } else { b } }
+pub open spec fn imin(a: int, b: int) -> int { if a <= b { a } else { b } }
+pub open spec fn rects_overlap(a: Rectangle, b: Rectangle) -> bool {
+    rect_nonempty(a) && rect_nonempty(b)
+    && imax(a.top_left.x as int, b.top_left.x as int) <= imin(rect_right(a), rect_right(b))
+    && imax(a.top_left.y as int, b.top_left.y as int) <= imin(rect_bottom(a), rect_bottom(b))
+}
+/// Set-theoretic meaning of `Rectangle::intersection` on valid rectangles (discharged by Kani on the
+/// real embedded-graphics-core code for all i32/u32 inputs satisfying `rect_valid`).
+pub assume_specification [Rectangle::intersection] (a: &Rectangle, b: &Rectangle) -> (r: Rectangle)
+    requires rect_valid(*a), rect_valid(*b),
+    ensures
+        rect_valid(r),
+        rects_overlap(*a, *b) ==> rect_nonempty(r)
+            && r.top_left.x == imax(a.top_left.x as int, b.top_left.x as int)
+            && r.top_left.y == imax(a.top_left.y as int, b.top_left.y as int)
+            && rect_right(r) == imin(rect_right(*a), rect_right(*b))
+            && rect_bottom(r) == imin(rect_bottom(*a), rect_bottom(*b)),
+        !rects_overlap(*a, *b) ==> !rect_nonempty(r),
+        // identical result when nothing is clipped (what `&intersection == area` tests)
+        rects_overlap(*a, *b) && rect_contains(*b, a.top_left.x as int, a.top_left.y as int) && rect_contains(*b, rect_right(*a), rect_bottom(*a)) ==> r == *a;
+pub assume_specification [Rectangle::bottom_right] (a: &Rectangle) -> (r: Option<Point>)
+    requires rect_valid(*a),
+    ensures
+        rect_nonempty(*a) ==> r == Some(Point { x: rect_right(*a) as i32, y: rect_bottom(*a) as i32 }),
+        !rect_nonempty(*a) ==> r is None;
+pub assume_specification [Size::new] (w: u32, h: u32) -> (r: Size)
+    ensures r == (Size { width: w, height: h });
+pub assume_specification [<Rectangle as core::cmp::PartialEq>::eq] (a: &Rectangle, b: &Rectangle) -> (r: bool)
+    ensures r == (*a == *b);
+
+#[verifier::external_trait_specification]
+#[verifier::external_trait_extension(OriginDimensionsSpec via OriginDimensionsSpecImpl)]
+pub trait ExOriginDimensions {
+    type ExternalTraitSpecificationFor: embedded_graphics_core::geometry::OriginDimensions;
+    spec fn spec_size(&self) -> Size;
+    fn size(&self) -> (r: Size)
+        ensures r == self.spec_size();
+}
+#[verifier::external_trait_specification]
+pub trait ExDimensions {
+    type ExternalTraitSpecificationFor: embedded_graphics_core::geometry::Dimensions;
+    fn bounding_box(&self) -> Rectangle;
+}
+/// e-g's blanket `impl<T: OriginDimensions> Dimensions for T`: `Rectangle::new(Point::zero(), self.size())`
+pub assume_specification<T: embedded_graphics_core::geometry::OriginDimensions> [<T as embedded_graphics_core::geometry::Dimensions>::bounding_box] (s: &T) -> (r: Rectangle)
+    ensures r == (Rectangle { top_left: Point { x: 0, y: 0 }, size: s.spec_size() });
+
+#[verifier::external_trait_specification]
+#[verifier::external_trait_extension(DrawTargetSpec via DrawTargetSpecImpl)]
+pub trait ExDrawTarget: embedded_graphics_core::geometry::Dimensions {
+    type ExternalTraitSpecificationFor: embedded_graphics_core::draw_target::DrawTarget;
+    type Color: PixelColor;
+    type Error;
+    /// the target's own well-formedness (for `Display`: its representation invariant)
+    spec fn dt_wf(&self) -> bool;
+    fn draw_iter<I>(&mut self, pixels: I) -> Result<(), Self::Error>
+        where I: IntoIterator<Item = embedded_graphics_core::Pixel<Self::Color>>
+        requires old(self).dt_wf();
+    fn fill_contiguous<I>(&mut self, area: &Rectangle, colors: I) -> Result<(), Self::Error>
+        where I: IntoIterator<Item = Self::Color>
+        requires old(self).dt_wf(), rect_valid(*area), area.size.width * area.size.height < 0x1_0000_0000;
+    fn fill_solid(&mut self, area: &Rectangle, color: Self::Color) -> Result<(), Self::Error>
+        requires old(self).dt_wf(), rect_valid(*area), area.size.width * area.size.height < 0x1_0000_0000;
+}
+
 pub assume_specification [i32::rem_euclid] (a: i32, b: i32) -> (r: i32)
     requires b > 0,
     ensures r as int == (a as int) % (b as int);
@@ -115,6 +204,11 @@ pub enum Ev<W> {
 /// `b` extends `a` by a burst that ended in a fault.
 pub open spec fn faulted<W>(a: Seq<Ev<W>>, b: Seq<Ev<W>>) -> bool {
     a.len() < b.len() && (forall|i: int| 0 <= i < a.len() ==> #[trigger] b[i] == a[i]) && b.last() is Fault
+}
+
+/// `b` is `a` followed by exactly one pixel burst.
+pub open spec fn px_pushed<W>(a: Seq<Ev<W>>, b: Seq<Ev<W>>) -> bool {
+    b.len() == a.len() + 1 && b.drop_last() == a && b.last() is Px
 }
 
 // ------------------------------------------------------------------------- orientation geometry
